@@ -468,4 +468,56 @@ theorem unpackMany_of_normalize_eq {fr fw : Fmt} (hn : normalize fr = normalize 
     rw [← unpack_normalize fr, hn, unpack_normalize]
   simp only [unpackMany, hs, unpackManyAux_congr hu hs]
 
+
+/-! ### canonical form depends only on the shapes of the values -/
+
+inductive Shape where
+  | int | f32 | f64 | bool | bytes (n : Nat)
+deriving DecidableEq, Repr
+
+def Val.shape : Val → Shape
+  | .int _ => .int
+  | .f32 _ => .f32
+  | .f64 _ => .f64
+  | .bool _ => .bool
+  | .bytes b => .bytes b.length
+
+def canonicalFieldS (f : FieldFmt) (s : Shape) : Bool :=
+  match f.intInfo with
+  | some _ => match s with
+    | .int => true
+    | _ => false
+  | none =>
+    match f, s with
+    | .f32, .f32 => true
+    | .f64, .f64 => true
+    | .bool, .bool => true
+    | .str n, .bytes m => m == n
+    | _, _ => false
+
+def canonicalS : Fmt → List Shape → Bool
+  | [], ss => ss.isEmpty
+  | f :: fs, ss =>
+    match f with
+    | .pad _ => canonicalS fs ss
+    | _ => match ss with
+      | [] => false
+      | s :: ss' => canonicalFieldS f s && canonicalS fs ss'
+
+theorem canonicalField_shape (f : FieldFmt) (v : Val) : canonicalField f v = canonicalFieldS f v.shape := by
+  unfold canonicalField canonicalFieldS
+  cases h : f.intInfo <;> cases v <;> cases f <;> simp_all [Val.shape, FieldFmt.intInfo]
+
+theorem canonical_shapes (fmt : Fmt) (vs : List Val) : canonical fmt vs = canonicalS fmt (vs.map Val.shape) := by
+  induction fmt generalizing vs with
+  | nil => cases vs <;> simp [canonical, canonicalS]
+  | cons f fs ih =>
+    cases f with
+    | pad n => simp only [canonical, canonicalS]; exact ih vs
+    | _ =>
+      all_goals
+        cases vs with
+        | nil => simp [canonical, canonicalS]
+        | cons v vs' => simp only [canonical, canonicalS, List.map_cons, canonicalField_shape, ih vs']
+
 end StructCodec
